@@ -7,7 +7,7 @@ CONSTANTS
  Dev = {}
  TrimOn = "match"
  Defect = "none"
- MaxFeeds = 3
+ MaxFeeds = 2
  MaxDials = 2
  MaxTime = 2
  MaxSubs = 1
